@@ -7,6 +7,15 @@ props = [json.loads(l) for l in open(os.path.join(ROOT, 'properties.jsonl'))]
 
 # id -> (technique, level text, level note, design ref)
 CHECKS = {
+ 'C09': ('runtime monitors: deep-fingerprint purity monitor around every validation/application entry point, provenance differential (decoded/multiproof/DeepCopy/JSON copies), stepwise-vs-blockwise comparison, alias walker + scribble test for copy operations, Go race detector with overlap gauge over shared inputs',
+         'For every accepted block of generated histories and an invalid sibling: inputs are fingerprinted (incl. proofs and unexported fields) before/after ~15 entry points; the same block obtained five ways must give the same verdict, byte-identical state and identical update contents; transaction-by-transaction validation must agree with ValidateBlock; element Copy() and V2Transaction.DeepCopy() results must share no mutable memory with the original (region intersection + write-through test); under -race 2/8/32 goroutines run the pipeline on the same objects (overlap measured), every result compared with the sequential one.',
+         'Trusted: the reflection fingerprint/alias walkers; the race detector only judges accesses that occur in the run.', '§5 C09'),
+ 'C13': ('runtime monitor: math/big proof-of-work model checking clamps, inverse relations and monotonicity after every real ApplyHeader step over generated timestamp histories; header-vs-block state comparison; ValidateHeader single-condition cases with real mining',
+         'Header histories of 10^3-10^5 steps over generated networks (four families + testnet, fork heights crossed in the run) with 13 timestamp models filtered through the real median rule: no panic, per-step change of required work inside the era clamp (pre-Oak, Oak, single ASIC reset, v2, final cut), target/difficulty floored inverses, total work monotone; the same headers applied as real blocks must give identical PoW state; ValidateHeader accepts iff all four conditions hold (each violated singly); SufficientlyHeavierThan asymmetric on state pairs.',
+         'Trusted: the big-integer model of the era rules (written from the statement and code comments); networks restricted to BlockInterval >= 1 s and FinalCutHeight >= AllowHeight.', '§5 C13'),
+ 'C16': ('runtime differential monitors: naive recursive Merkle model vs optimised roots/proofs, AVX2 vs generic vs reference hashing on guard-paged buffers, exhaustive small (n,start,end)/subset enumeration of proof builders and verifiers with single-corruption soundness tests, race detector on the parallel root functions',
+         'Roots (SectorRoot, ReaderRoot under all chunkings, ReadSectorRoot, MetaRoot, Accumulator, CachedSectorSubtrees) are compared with a naive model on many sector contents; both CPU hashing paths are driven directly on buffers flush against PROT_NONE pages; every builder/verifier pair of rhp v2/v4 is enumerated exhaustively for small sizes and randomly beyond (completeness with the model\'s roots) and every single corruption of proof hashes, data, indices, roots and proof length must be rejected given the true count; parallel functions run under -race with NumCPU 1/3/16.',
+         'Trusted: the naive Merkle model and an own RFC 7693 BLAKE2b used to cross-check the reference hash; only AVX2 and generic paths exist on this CPU.', '§5 C16'),
  'C12': ('runtime differential monitor: reflection-enumerated single-field mutations of real transactions/blocks with before/after comparison of every ID, hash and signature hash against a rule table; collision table of all derived IDs; era separation; block-binding via ValidateBlock',
          'For the transactions and blocks of generated histories every exported leaf field is mutated and ID, derived IDs, FullHash, MerkleLeafHash and all signature hashes are compared before/after (changed iff effect-bearing, unchanged for the exempt witness/signature/parent-content/proof fields); all derived IDs and purpose-specific signature hashes go into one collision table labelled by kind and index; v1 signature hashes are compared across replay-prefix eras; block content mutations that keep the header must change Block.ID() or be rejected by ValidateBlock.',
          'Trusted: the rule table of exempt fields (taken from the statement). Hash preimage layouts themselves are C11\'s subject.', '§5 C12'),
